@@ -701,7 +701,7 @@ V("fix 11ce657 undone (verify): previous path searched in the root history's gen
                     history_relative_path = media_hash.previous_path or history_relative_path
                     break
 
-            if single_file""", """            for hash_list in history.hash_lists:
+            if single_file""", """            for hash_list in existing_history.hash_lists:
                 for media_hash in hash_list.media_hashes:
                     if media_hash.path != history_relative_path:
                         continue
